@@ -104,7 +104,20 @@ class CtorWorld(GraphWorld):
             return TypeV("NotImplemented")
         return None
 
+    def generic_elements(self, ip, it, node):
+        if isinstance(it, Triples):
+            return [TupleV([NodeV("U"), NodeV("U" if self.cfg.get("loop") else "V"), self.datadict])]
+        if isinstance(it, RangeV):
+            if ip.cmp_int(it.lo, it.hi, ">=", node):
+                return []
+            return [LoopVar(it)]
+        if isinstance(it, NodesOf):
+            return [NodeV("n-of-result")]
+        return None
+
     def concretise_iter(self, ip, it, node):
+        if isinstance(it, NodesOf) and not isinstance(node, ast.For):
+            return ListObj([NodeV("n-of-result")])
         if isinstance(it, GraphParamV):
             it = SelfV()
         if isinstance(it, SelfV):
@@ -642,7 +655,13 @@ class CtorChecker:
             ok_nodes = isinstance(nodes, NodeList)
             if isinstance(nodes, ListObj):
                 # concrete enumeration of the modelled graph's nodes: every node once, attributes + id
-                roles = [x.node.role for x in nodes.items if isinstance(x, NodeEntry) and x.idkey == Const("id")]
+                norm = []
+                for x in nodes.items:
+                    if isinstance(x, DictObj) and set(x.entries) == {Const("__attrs_of__"), Const("id")} and \
+                            x.entries[Const("__attrs_of__")] == x.entries[Const("id")]:
+                        x = NodeEntry(x.entries[Const("id")], Const("id"))
+                    norm.append(x)
+                roles = [x.node.role for x in norm if isinstance(x, NodeEntry) and x.idkey == Const("id")]
                 ok_nodes = len(roles) == len(nodes.items) and sorted(roles) == sorted({"U", "V"})
             if not ok_nodes:
                 self.add("C11.data", construct, "nodes", "data['nodes'] is %r, expected one entry per node of G with its attributes and id" % (
@@ -679,6 +698,11 @@ class LinkWorld(CtorWorld):
         return super().eval_comprehension(ip, e, env)
 
     def call_builtin(self, ip, name, args, kwargs, node):
+        if name == "dict" and len(args) == 1 and isinstance(args[0], NodeAttrs):
+            # a fresh dict holding the node's attributes
+            return DictObj({Const("__attrs_of__"): args[0].node}, tag="attr-copy")
+        if name == "dict" and len(args) == 1 and isinstance(args[0], AttrItems):
+            return DictObj({Const("__attrs_of__"): args[0].node}, tag="attr-copy")
         if name == "chain" and len(args) == 2 and isinstance(args[0], AttrItems) and isinstance(args[1], ListObj) \
                 and len(args[1].items) == 1 and isinstance(args[1].items[0], TupleV) and len(args[1].items[0].items) == 2:
             k, v = args[1].items[0].items
